@@ -44,7 +44,8 @@ InHeader(stk) == \E i \in 1..Len(stk) : stk[i] \in {"CH", "DI"}
 \* statements that may start inside a body-like frame
 BodyStarts(stk) ==
     (IF CanPush(stk) THEN
-       { Mv(Tok("other", "name"), Push(stk, "S0"), FALSE) }
+       { Mv(Tok("other", "name"), Push(stk, "S0"), FALSE),
+         Mv(Tok("kw", "dml"), Push(stk, "S"), FALSE) }         \* a DML / DDL statement inside a body: delete ...; drop ...; truncate ...;
        \cup (IF "if" \in Allow THEN { Mv(Tok("if", "if"), Push(stk, "IC"), FALSE) } ELSE {})
        \cup (IF "for" \in Allow THEN { Mv(Tok("for", "for"), Push(stk, "FH"), FALSE) } ELSE {})
        \cup (IF "whileloop" \in Allow \/ "whiledo" \in Allow THEN { Mv(Tok("while", "while"), Push(stk, "WH"), FALSE) } ELSE {})
